@@ -91,7 +91,7 @@ class MLPModel(DiscriminativeModel):
     >>> clf.predict_proba(X[:2,:]).shape
     (2, 3)
     >>> clf.score(X)
-    0.6325592616
+    0.6351234486
     """
     _parameter_constraints: dict = {
         **DiscriminativeModel._parameter_constraints,
@@ -126,7 +126,7 @@ class MLPModel(DiscriminativeModel):
         W2_grad = self.H_.T @ tau_hat_grad  # Shape
         b2_grad = tau_hat_grad.sum(0, keepdims=True)
 
-        backprop_grad = tau_hat_grad @ W2_grad.T
+        backprop_grad = tau_hat_grad @ self.W2_.T
         backprop_grad *= self.H_ > 0
         W1_grad = X.T @ backprop_grad
         b1_grad = backprop_grad.sum(0, keepdims=True)
@@ -234,7 +234,7 @@ class MLPMMD(MLPModel):
     >>> clf.predict_proba(X[:2,:]).shape
     (2, 3)
     >>> clf.score(X)
-    1.7592155845
+    1.7669153198
     """
     _parameter_constraints: dict = {
         **MLPModel._parameter_constraints,
@@ -352,7 +352,7 @@ class MLPWasserstein(MLPModel):
     >>> clf.predict_proba(X[:2,:]).shape
     (2, 3)
     >>> clf.score(X)
-    1.7636482655
+    1.7713584645
     """
     _parameter_constraints: dict = {
         **MLPModel._parameter_constraints,
